@@ -26,17 +26,18 @@ EXTENDS SchedulingGuards, Json
 
 CONSTANTS
     NPods,        \* pods per batch
-    PodArchs,     \* archetype ids the batch is drawn from (subset of 1..12)
+    PodArchs,     \* archetype ids the batch is drawn from (subset of 1..13)
     Catalogs,     \* catalog ids (subset of 1..6)
     PoolSets,     \* pool-set ids (subset of 1..5)
-    Existings,    \* existing-state ids (subset of 0..4)
+    Existings,    \* existing-state ids (subset of 0..5)
     Daemons,      \* daemonset ids (subset of 0..3)
     W_Avail,      \* TRUE: an offering must be available             (FALSE = mutation)
     W_Overhead,   \* TRUE: per-type daemon overhead is added to the requests
     W_Ports,      \* TRUE: host ports are tracked on new NodeClaims
     W_KeepTerm,   \* TRUE: relaxation never drops the last required term
     W_Override,   \* TRUE: fit uses the allocatable of the offering's override group
-    W_Refilter    \* TRUE: instance types are re-filtered when a later pod is added
+    W_Refilter,   \* TRUE: instance types are re-filtered when a later pod is added
+    W_InitTaints  \* TRUE: ephemeral / startup taints are ignored only on NOT yet initialized managed nodes
 
 VARIABLES cfg, eff, claims, onNode, state
 vars == <<cfg, eff, claims, onNode, state>>
@@ -65,7 +66,8 @@ Catalog(i) ==
 
 NoLimits == [cpu |-> 0, mem |-> 0, nodes |-> -1]
 PR(k, op, vals) == [key |-> k, op |-> op, vals |-> vals, n |-> 0, min |-> 0]
-Dedicated == [key |-> "dedicated", value |-> "infra", effect |-> "NoSchedule"]
+Dedicated == [key |-> "dedicated", value |-> "infra", effect |-> "NoSchedule", timeAdded |-> FALSE]
+NotReady(fx) == [key |-> "node.kubernetes.io/not-ready", value |-> "", effect |-> fx, timeAdded |-> fx = "NoExecute"]
 Pool(n, reqs, labels, taints) == [name |-> n, weight |-> 0, reqs |-> reqs, labels |-> labels, taints |-> taints, startup |-> <<>>,
                                   limits |-> NoLimits, types |-> <<>>]
 PoolSet(i) ==
@@ -98,6 +100,7 @@ Arch(a, name) ==
       [] a = 10 -> [p EXCEPT !.ports = <<Port80>>, !.cpu = 900]
       [] a = 11 -> [p EXCEPT !.vols = <<"c-b">>]
       [] a = 12 -> [p EXCEPT !.terms = <<<<E("team", "NotIn", <<"y">>)>>>>]
+      [] a = 13 -> [p EXCEPT !.tol = <<[key |-> "node.kubernetes.io/not-ready", op |-> "Exists", value |-> "", effect |-> ""]>>]
 PodName(i) == "w" \o ToString(i)
 \* batches: non-decreasing archetype sequences (multisets)
 Batches == {s \in [1..NPods -> PodArchs] : \A i \in 1..(NPods - 1) : s[i] <= s[i + 1]}
@@ -109,15 +112,19 @@ NodeRec(name, stage, tyn, z, c, alloc, pool) ==
      labels |-> [k \in {"zone", "ct", "it", "pool"} \cup DOMAIN pool.labels |->
                    CASE k = "zone" -> z [] k = "ct" -> c [] k = "it" -> tyn [] k = "pool" -> pool.name [] OTHER -> pool.labels[k]],
      taints |-> pool.taints, startup |-> <<>>, ephemeral |-> FALSE, alloc |-> alloc, cap |-> alloc, marked |-> FALSE, deleting |-> FALSE,
-     csi |-> <<>>]
+     csi |-> <<>>, nodeTaints |-> <<>>]
 ExistNodes(i, pool) ==
     LET n1 == NodeRec("n1", "initialized", "T2", "a", "od", Res(1900, 4096, 110), pool)
         n2 == NodeRec("n2", "claimonly", "T1", "b", "spot", Res(900, 4096, 110), pool)
         \* n3 = statically joined (unmanaged) node WITHOUT zone / pool labels: a missing label satisfies only NotIn / DoesNotExist
         n3 == [name |-> "n3", stage |-> "unmanaged", pool |-> "", labels |-> [ct |-> "od", it |-> "T2"], taints |-> <<>>, startup |-> <<>>,
-               ephemeral |-> FALSE, alloc |-> Res(1900, 4096, 110), cap |-> Res(1900, 4096, 110), marked |-> FALSE, deleting |-> FALSE, csi |-> <<>>]
-    IN CASE i = 0 -> <<>> [] i = 1 -> <<n1>> [] i = 2 -> <<n2>> [] i = 3 -> <<n1, n2>> [] i = 4 -> <<n1, n3>>
-BoundOn(i) == IF i \in {1, 3, 4} THEN <<[P0("b1") EXCEPT !.node = "n1", !.owner = "rs", !.cpu = 900, !.ports = <<Port80>>, !.tol = <<TolAll>>]>> ELSE <<>>
+               ephemeral |-> FALSE, alloc |-> Res(1900, 4096, 110), cap |-> Res(1900, 4096, 110), marked |-> FALSE, deleting |-> FALSE, csi |-> <<>>, nodeTaints |-> <<>>]
+        \* n1 went NotReady AFTER initialization (not-ready:NoExecute re-acquired): every pod needs a toleration;
+        \* n2r = registered but not yet initialized node still carrying not-ready:NoSchedule: expected to clear
+        n1e == [n1 EXCEPT !.nodeTaints = <<NotReady("NoExecute")>>]
+        n2r == [NodeRec("n2", "registered", "T1", "b", "spot", Res(900, 4096, 110), pool) EXCEPT !.nodeTaints = <<NotReady("NoSchedule")>>]
+    IN CASE i = 0 -> <<>> [] i = 1 -> <<n1>> [] i = 2 -> <<n2>> [] i = 3 -> <<n1, n2>> [] i = 4 -> <<n1, n3>> [] i = 5 -> <<n1e, n2r>>
+BoundOn(i) == IF i \in {1, 3, 4, 5} THEN <<[P0("b1") EXCEPT !.node = "n1", !.owner = "rs", !.cpu = 900, !.ports = <<Port80>>, !.tol = <<TolAll>>]>> ELSE <<>>
 
 DS0(sel, ports) == [name |-> "ds0", ns |-> "kube-system", cpu |-> 200, mem |-> 64, sel |-> sel, terms |-> <<>>, tol |-> <<TolAll>>, ports |-> ports]
 DaemonSet(i) == CASE i = 0 -> <<>> [] i = 1 -> <<DS0(<<>>, <<>>)>> [] i = 2 -> <<DS0([zone |-> "a"], <<>>)>> [] i = 3 -> <<DS0(<<>>, <<Port80>>)>>
@@ -246,10 +253,12 @@ PlaceExisting(k, n) ==
         L == NodeLabelling(n)
         bound == BoundPods(cfg, n)
         here == OrigPods(onNode[n.name])
-        outst == {d \in Range(cfg.ds) : DaemonRuns(cfg, d, L, n.taints) /\ ~\E b \in bound : b.owner = "ds:" \o d.name}
+        \* the taints the mechanism filters on (the weak variant forgets that the leniency ends with initialization)
+        ts == IF W_InitTaints THEN EffTaints(n) ELSE EffTaints([n EXCEPT !.stage = IF @ = "unmanaged" THEN @ ELSE "registered"])
+        outst == {d \in Range(cfg.ds) : DaemonRuns(cfg, d, L, ts) /\ ~\E b \in bound : b.owner = "ds:" \o d.name}
     IN
     /\ ~n.marked /\ ~n.deleting
-    /\ TaintsTolerated(e.tol, n.taints)
+    /\ TaintsTolerated(e.tol, ts)
     /\ \A i \in DOMAIN PodExprs(e) : Admits(cfg, PodExprs(e)[i], L)
     /\ VolsHold(cfg, Orig(k), L)
     /\ \A q \in bound \cup here : ~PortsClash(e.ports, q.ports)
